@@ -1,5 +1,5 @@
 (* Model of solvor/milp.py  (solve_milp 74-232, _solve_node 235-298, _most_fractional 301-308, _compute_gap 311-314,
-   _detect_binary 317-329, _is_feasible 332-343, _round_binary 346-421), tree after commits 5461f0f and 48990b1.
+   _detect_binary 317-329, _is_feasible 332-343, _round_binary 346-421), tree after commits 5461f0f, 48990b1 and 7e63594.
    Definitions only.  Shape O over Q: float arithmetic is carried out in exact rationals, `eps` and `gap_tol` are
    parameters.  Two things are NOT modelled but taken as arguments (oracles):
      lp  : the LP kernel `solve_lp` called by `_solve_node`  (instantiated with SV.C03.Simplex.solve_lp in MilpInst.v)
@@ -219,35 +219,39 @@ Fixpoint rb_phase1 (fuel : nat) (eps : Q) (minimize : bool) (c : list Q) (A : li
       if improved then rb_phase1 f eps minimize c A b ints sol' else Some sol'
   end.
 
-(* inner double loop of phase 2: state (best_gain, best_swap, sol) - sol changes because the code "restores" 0.0/1.0 *)
-Definition rb_try (eps : Q) (A : list (list Q)) (b : list Q) (ints : list nat) (s : Q) (c : list Q) (j_on : nat)
-           (st : Q * option (nat * nat) * list Q) (j_off : nat) : Q * option (nat * nat) * list Q :=
+(* inner double loop of phase 2: state (best_gain, best_swap, sol).
+   `restore_old` = true is the code after commit 7e63594: a trial writes sol[j_on], sol[j_off] = 1.0, 0.0, runs
+   _is_feasible and then restores the two old values, i.e. leaves sol as it was (j_on and j_off are distinct: one value is
+   < 0.5, the other > 0.5), so the trial is a pure test.  `restore_old` = false is the pinned code before that commit,
+   which "restored" 0.0 / 1.0 (kept for C04_round_binary_unchecked_pinned_refuted). *)
+Definition rb_try (restore_old : bool) (eps : Q) (A : list (list Q)) (b : list Q) (ints : list nat) (s : Q) (c : list Q)
+           (j_on : nat) (st : Q * option (nat * nat) * list Q) (j_off : nat) : Q * option (nat * nat) * list Q :=
   let '(best_gain, best_swap, sol) := st in
   let net := (- s * nth j_on c 0) + s * nth j_off c 0 in
   if Qltb best_gain net then
     let sol1 := set_nth j_off 0 (set_nth j_on 1 sol) in
     let st' := if is_feasible eps sol1 A b ints then (net, Some (j_on, j_off)) else (best_gain, best_swap) in
-    (st', set_nth j_off 1 (set_nth j_on 0 sol))
+    (st', if restore_old then sol else set_nth j_off 1 (set_nth j_on 0 sol))
   else st.
 
-Fixpoint rb_phase2 (fuel : nat) (eps : Q) (minimize : bool) (c : list Q) (A : list (list Q)) (b : list Q)
-         (ints : list nat) (sol : list Q) : option (list Q) :=
+Fixpoint rb_phase2 (restore_old : bool) (fuel : nat) (eps : Q) (minimize : bool) (c : list Q) (A : list (list Q))
+         (b : list Q) (ints : list nat) (sol : list Q) : option (list Q) :=
   match fuel with
   | O => None
   | S f =>
       let zeros := filter (fun j => Qltb (nth j sol 0) (1 # 2)) ints in
       let ones := filter (fun j => Qltb (1 # 2) (nth j sol 0)) ints in
       let '(_, best_swap, sol') :=
-        fold_left (fun st j_on => fold_left (rb_try eps A b ints (sgn minimize) c j_on) ones st) zeros (0, None, sol) in
+        fold_left (fun st j_on => fold_left (rb_try restore_old eps A b ints (sgn minimize) c j_on) ones st) zeros (0, None, sol) in
       match best_swap with
-      | Some (j_on, j_off) => rb_phase2 f eps minimize c A b ints (set_nth j_off 0 (set_nth j_on 1 sol'))
+      | Some (j_on, j_off) => rb_phase2 restore_old f eps minimize c A b ints (set_nth j_off 0 (set_nth j_on 1 sol'))
       | None => Some sol'
       end
   end.
 
 (* outer None = fuel exhausted (an error of the model, never a result); inner None = `return None` *)
-Definition round_binary (eps : Q) (lp_solution : list Q) (ints : list nat) (c : list Q) (A : list (list Q))
-           (b : list Q) (minimize : bool) : option (option (list Q)) :=
+Definition round_binary_gen (restore_old : bool) (eps : Q) (lp_solution : list Q) (ints : list nat) (c : list Q)
+           (A : list (list Q)) (b : list Q) (minimize : bool) : option (option (list Q)) :=
   let cands := sort_by key3_lt
                  (map (fun j => (sgn minimize * nth j c 0, nth j lp_solution 0, j))
                       (filter (fun j => Qltb eps (frac_dist (nth j lp_solution 0))) ints)) in
@@ -259,12 +263,15 @@ Definition round_binary (eps : Q) (lp_solution : list Q) (ints : list nat) (c : 
         match rb_phase1 (S (length ints)) eps minimize c A b ints sol with
         | None => None
         | Some sol1 =>
-            match rb_phase2 (S (2 ^ length ints)) eps minimize c A b ints sol1 with
+            match rb_phase2 restore_old (S (2 ^ length ints)) eps minimize c A b ints sol1 with
             | None => None
             | Some sol2 => Some (Some sol2)
             end
         end
   end.
+
+(* the code that exists (after 7e63594) *)
+Definition round_binary := round_binary_gen true.
 
 (* ---------- def solve_milp *)
 Fixpoint tuple_eqb (a b : list Q) : bool :=           (* == of two tuples of floats *)
@@ -398,6 +405,10 @@ Section BB.
   Definition bb_fuel : nat := S (S (2 * max_nodes)).
 End BB.
 
+(* looks_binary = all(-eps <= root_result.solution[j] <= 1 + eps for j in int_set) *)
+Definition looks_binary_at (eps : Q) (sol : list Q) (ints : list nat) : bool :=
+  forallb (fun j => Qleb (- eps) (nth j sol 0) && Qleb (nth j sol 0) (1 + eps)) ints.
+
 (* lower/upper after the `looks_binary and _detect_binary` tightening: at that program point lower = [0.0]*n and
    upper = [inf]*n, so `lower[j] = max(lower[j], 0.0)` leaves 0 and `upper[j] = min(upper[j], 1.0)` gives 1 *)
 Definition tighten_upper (n : nat) (ints : list nat) : list ub :=
@@ -427,8 +438,7 @@ Definition solve_milp (lp : lp_kernel) (lns : list Q -> option (list Q))
       match most_fractional eps (n_sol root) ints with
       | None => Some (mkM S_OPTIMAL (Some (n_sol root)) (Fin (n_obj root)) 1 None)
       | Some _ =>
-          let looks_binary :=
-            forallb (fun j => Qleb (- eps) (nth j (n_sol root) 0) && Qleb (nth j (n_sol root) 0) (1 + eps)) ints in
+          let looks_binary := looks_binary_at eps (n_sol root) ints in
           let upper1 := if looks_binary && detect_binary eps A b ints n then tighten_upper n ints else upper in
           (* rounding heuristic *)
           let st1 : option (option (list Q * Q) * list (list Q)) :=
